@@ -1,26 +1,10 @@
 import Ctap.Request
+import Ctap.Cfg
 import Gen
 /-
   Fixed glue between the generated data (`Gen.*`, regenerated from /repo on every run) and the
   generic model: the eight wire-affecting feature configurations and the request tables.
 -/
-
-/-- the three wire-affecting cargo features: get-info-full, large-blobs, third-party-payment -/
-structure Cfg where
-  g : Bool
-  l : Bool
-  t : Bool
-  deriving DecidableEq, Repr
-
-def Cfg.all : List Cfg :=
-  [⟨false,false,false⟩, ⟨false,false,true⟩, ⟨false,true,false⟩, ⟨false,true,true⟩,
-   ⟨true,false,false⟩, ⟨true,false,true⟩, ⟨true,true,false⟩, ⟨true,true,true⟩]
-
-theorem Cfg.mem_all (c : Cfg) : c ∈ Cfg.all := by
-  rcases c with ⟨_|_, _|_, _|_⟩ <;> decide
-
-def Cfg.id (c : Cfg) : String :=
-  (if c.g then "1" else "0") ++ (if c.l then "1" else "0") ++ (if c.t then "1" else "0")
 
 namespace Gen
 
